@@ -67,7 +67,7 @@ CONC = {
     "C03": dict(families=["deploy", "pause", "rollout", "dueldrain"], invs=["C03_a", "C03_b", "C03_c"], dinvs=["D_C03_a", "D_C03_b", "D_C03_p"]),
     "C05": dict(families=["own", "duelown"], invs=["C05_a"], dinvs=["O_Ownership", "O_SomeoneWins", "A_RefusalJustified"]),
     "C06": dict(families=["own"], invs=["C06_b"], dinvs=["O_FailedLeavesNothing", "A_FailChangesNothing", "O_NoLeak"]),
-    "C07": dict(families=["pause"], invs=["C07_a", "C07_b", "C07_c", "C07_d", "C07_e", "C07_f"], dinvs=["D_C07_a", "D_C07_b", "D_C07_f"]),
+    "C07": dict(families=["pause", "duelstop"], invs=["C07_a", "C07_b", "C07_c", "C07_d", "C07_e", "C07_f"], dinvs=["D_C07_a", "D_C07_b", "D_C07_f"]),
     "C08": dict(families=["pause"], invs=["C08", "C08_fwd"], dinvs=["D_C08", "D_C07_a"]),
     "C09": dict(families=["health", "rollout", "duelprobe"], invs=["C09_a", "C09_b", "C09_c", "C09_d"], dinvs=["D_C09"]),
     "C12": dict(families=["snap"], invs=["C12_a", "C12_b"], dinvs=["S_Complete", "S_Window", "S_Current", "S_Mutex"]),
@@ -76,11 +76,12 @@ CONC = {
 
 # the duel families (harness/gen_duel.go) are a few milliseconds each
 SIZES = {"quick": {"deploy": 160, "pause": 160, "rollout": 128, "own": 240, "health": 160, "snap": 240,
-                   "duelown": 3000, "dueldrain": 3000, "duelprobe": 1500},
+                   "duelown": 3000, "dueldrain": 3000, "duelprobe": 2000, "duelstop": 1500},
          "thorough": {"deploy": 2000, "pause": 2000, "rollout": 1500, "own": 2000, "health": 1500, "snap": 2000,
-                      "duelown": 30000, "dueldrain": 30000, "duelprobe": 15000}}
+                      "duelown": 30000, "dueldrain": 30000, "duelprobe": 20000, "duelstop": 15000}}
 SIMS = {"quick": 30, "thorough": 500}
 MC_TIMEOUT = {"quick": 240, "thorough": 2400}
+MC_HEAP_MB = {"quick": 4096, "thorough": 8192}     # exhaustive runs; every other TLC process gets 2 GB (3 GB for trace validation)
 DTRACE_LIMIT = {"quick": 96, "thorough": None}   # scenarios validated against the design model per run
 
 
@@ -97,7 +98,8 @@ def design_runs(family, tier, seed):
         name = cfg
         if extra_const:
             name = vlib.cfg_with(wd, cfg, "T_" + cfg, constants=extra_const)
-        p = vlib.start_tlc(wd, mdl["module"], name, workers=max(2, vlib.NCPU // 2 // len(cfgs)), timeout=MC_TIMEOUT[tier])
+        p = vlib.start_tlc(wd, mdl["module"], name, workers=max(2, vlib.NCPU // 2 // len(cfgs)), timeout=MC_TIMEOUT[tier],
+                           heap_mb=MC_HEAP_MB[tier])
         jobs.append(dict(kind="mc", cfg=cfg, proc=p, wd=wd))
     for w, wcfg in mdl["witnesses"]:
         wd2 = vlib.spec_copy(family + w)
@@ -115,7 +117,7 @@ def design_runs(family, tier, seed):
     live = mdl.get("live", {})
     for lcfg in live.get(tier, []):
         wd2 = vlib.spec_copy(family + "live" + lcfg)
-        jobs.append(dict(kind="live", goal=lcfg, cfg=lcfg, proc=vlib.start_tlc(wd2, mdl["module"], lcfg, workers=4, timeout=MC_TIMEOUT[tier]), wd=wd2))
+        jobs.append(dict(kind="live", goal=lcfg, cfg=lcfg, proc=vlib.start_tlc(wd2, mdl["module"], lcfg, workers=4, timeout=MC_TIMEOUT[tier], heap_mb=MC_HEAP_MB[tier]), wd=wd2))
     if live.get("control"):
         wd2 = vlib.spec_copy(family + "livectl")
         jobs.append(dict(kind="live-control", goal=live["control"], cfg=live["control"],
@@ -387,7 +389,7 @@ def run_seq(prop, tier, seed, replay=None):
             plans += routing.pairwise_restart_plans()
         wd = vlib.spec_copy("routing")
         cfg = "MC_Routing_%s.cfg" % tier
-        pm = vlib.start_tlc(wd, "MC_Routing.tla", cfg, workers=vlib.NCPU // 2, timeout=MC_TIMEOUT[tier])
+        pm = vlib.start_tlc(wd, "MC_Routing.tla", cfg, workers=vlib.NCPU // 2, timeout=MC_TIMEOUT[tier], heap_mb=MC_HEAP_MB[tier])
         wd2 = vlib.spec_copy("routing-sim")
         n, depth = SEQ_SIMS[tier]
         ps = vlib.start_tlc(wd2, "MC_Routing.tla", "MC_Routing_thorough.cfg", workers=1, timeout=300,
@@ -396,7 +398,7 @@ def run_seq(prop, tier, seed, replay=None):
         po = vlib.start_tlc(wd3, "MC_Ops.tla", "MC_Ops.cfg", workers=1, timeout=300,
                             extra=["-simulate", "file=%s,num=%d" % (os.path.join(wd3, "sim"), n), "-depth", str(depth + 4), "-seed", str(seed)])
         wd4 = vlib.spec_copy("ops-mc")
-        pmo = vlib.start_tlc(wd4, "MC_Ops.tla", "MC_Ops_%s.cfg" % tier, workers=max(2, vlib.NCPU // 4), timeout=MC_TIMEOUT[tier])
+        pmo = vlib.start_tlc(wd4, "MC_Ops.tla", "MC_Ops_%s.cfg" % tier, workers=max(2, vlib.NCPU // 4), timeout=MC_TIMEOUT[tier], heap_mb=MC_HEAP_MB[tier])
         rc, out = vlib.finish_tlc(po)
         ofiles = sorted(glob.glob(os.path.join(wd3, "sim_*")))
         if not ofiles:
@@ -854,6 +856,19 @@ def main():
             print("unknown property", a.prop)
             rc = 2
         flush_evidence(a.prop, a.tier, seed, t0)
+    except vlib.ProxyHang as e:
+        # whose business a goroutine blocked for good is: a held request without its max-pause timer (C07), a command that
+        # never returns (C17), any of them (C18: never deadlocks)
+        mine = a.prop in ("C17", "C18") or (a.prop == "C07" and "PauseController).Wait" in e.what)
+        if mine:
+            inv = {"C17": "C17_a", "C07": "C07_d"}.get(a.prop, "C18_deadlock")
+            path = vlib.save_replay(a.prop, 0, {"property": a.prop, "violation": {"inv": inv, "detail": e.what}, "plan": e.plan})
+            print("VIOLATION property=%s replay=%s" % (a.prop, path))
+            print("  %s: a command or request is %s, with no timer left that could wake it" % (inv, e.what))
+            rc = 1
+        else:
+            print("INCONCLUSIVE property=%s: the proxy hangs (%s); this is C17/C18's business, %s cannot be decided on this tree" % (a.prop, e.what, a.prop))
+            rc = 2
     except vlib.ProxyPanic as e:
         path = vlib.save_replay(a.prop, 0, {"property": a.prop, "violation": {"inv": "C18_panic", "detail": e.what}, "plan": e.plan})
         print("VIOLATION property=%s replay=%s" % (a.prop, path))
